@@ -190,7 +190,7 @@ func CheckC14(p *Pkg, e *Env, r *res.Result) {
 			}
 		}
 		var body []byte
-		bodyKind := rapid.SampledFrom([]string{"none", "valid", "truncated", "deep", "wrong-type", "empty-object", "garbage", "huge"}).Draw(t, "body")
+		bodyKind := rapid.SampledFrom([]string{"none", "valid", "valid", "valid", "truncated", "deep", "wrong-type", "empty-object", "garbage", "huge"}).Draw(t, "body")
 		var valid []byte
 		if rb := p.Doc.ResolveRequestBody(op.Spec.RequestBody); rb != nil {
 			if mt := rb.Content["application/json"]; mt != nil && mt.Schema != nil {
